@@ -4,6 +4,16 @@ use crate::{rng::Rng, Ctx};
 const GT_CALLED: &[&str] = &["0/0", "0/1", "1/0", "1/1", "0|0", "0|1", "1|0", "1|1"];
 const GT_MISSING: &[&str] = &["./.", ".|.", "./0", "1/.", ".", ".|1"];
 const GT_MULTI: &[&str] = &["0/2", "2/1", "2/2", "3/0", "1|2", "2|0", "0/10", "1|12", "10/1", "0|11"];
+// allele indices past one byte (256, 257: 0 and 1 when cut down to eight bits), past two bytes; VCF text only (in BCF any index above 62
+// needs an int16 GT vector, which runs into the dependency's known defect F18)
+const GT_WIDE: &[&str] = &["0/256", "256/0", "257|0", "256/256", "1/257", "257/257", "0/65536", "65537/65536", "0/63", "4294967296/0", "4294967297|4294967297"];
+pub fn needs_wide(gt: &str) -> bool { gt.split(|c| c == '/' || c == '|').any(|a| a.parse::<u64>().map(|v| v > 62).unwrap_or(false)) }
+/// replace some multiallelic genotypes of a VCF-bound call set by ones with very large allele indices
+pub fn widen(rng: &mut Rng, recs: &mut [(String, usize, Vec<String>)]) {
+    for r in recs.iter_mut() { for g in r.2.iter_mut() { if GT_MULTI.contains(&g.as_str()) && rng.chance(1, 2) { *g = rng.pick(GT_WIDE).to_string(); } } }
+    // and one called genotype per call set, so that the wide alleles also stand where a count would otherwise be
+    if let Some(r) = recs.last_mut() { if let Some(g) = r.2.iter_mut().find(|g| GT_CALLED.contains(&g.as_str())) { *g = rng.pick(GT_WIDE).to_string(); } }
+}
 const GT_PLOIDY: &[&str] = &["0", "1", "0/0/1", "1|1|1", "0/1/1/0"];
 
 pub struct Gen<'a> { pub rng: &'a mut Rng }
@@ -92,7 +102,12 @@ pub fn gen_c01(ctx: &Ctx, rng: &mut Rng, out: &mut Vec<String>) {
         let mut order: Vec<usize> = (0..ncols).collect(); g.rng.shuffle(&mut order);
         let unnamed = if g.rng.chance(1, 3) { Some(g.rng.below(npops as u64) as usize) } else { None };
         let all = i % 9 == 0;   // no sample list: every column, one unnamed population
-        let sl = if all { "N".to_string() } else { samples_arg(&order, &assign, unnamed, !mem && g.rng.chance(1, 2)) };
+        // a third of the CLI call sets: sample names and population labels with blanks and punctuation (what a samples file must
+        // carry through untouched: only the first tab of a line separates name from label)
+        let styled = !mem && i % 3 == 1;
+        let names: Vec<String> = if styled { (0..ncols).map(|j| match j % 4 { 0 => format!("s{j} x"), 1 => format!("NA {j}"), 2 => format!("s{j}.b-1"), _ => format!("s{j}") }).collect() } else { cols(ncols) };
+        let labels: Vec<String> = if styled { ["East Africa", "East Asia", "East", "A B C", "pop 1"].iter().map(|l| l.to_string()).collect() } else { (0..5).map(pop_name).collect() };
+        let sl = if all { "N".to_string() } else { samples_arg_styled(&order, &assign, unnamed, !mem && g.rng.chance(1, 2), &names, &labels) };
         let eff_assign: Vec<Option<usize>> = if all { vec![Some(0); ncols] } else { assign.clone() };
         let nrec = g.rng.range(1, if ctx.tier_thorough { 300 } else { 30 }) as usize;
         let mut recs = Vec::new();
@@ -113,16 +128,16 @@ pub fn gen_c01(ctx: &Ctx, rng: &mut Rng, out: &mut Vec<String>) {
                 recs[0].2 = g;
             }
         }
-        let c = cols(ncols).join(",");
+        let c = names.join(",");
         if mem { out.push(format!("c01.mem\t{c}\t{sl}\tN\t{}", records_str(&recs))); }
         else {
             let container = ["vcf", "vcf", "bcf", "vcfgz", "rawbcf"][i % 5];
-            if container.contains("bcf") { bcf_safe(&mut recs); }
+            if container.contains("bcf") { bcf_safe(&mut recs); } else if i % 2 == 1 { widen(g.rng, &mut recs); }
             out.push(format!("c01.cli\t{container}\tpath\t4\t0\t{}\t{c}\t{sl}\tN\t0\t{}\t{}", (i % 2), if i % 4 == 0 { "3" } else { "-" }, records_str(&recs)));
             // byte level (the model decodes the container itself); sample lists given by file are left to the `.cli` form
             if i % 3 == 0 && !sl.starts_with("S:") {
                 let rs = records_str(&recs);
-                let cs = crate::vcf::CallSet { cols: cols(ncols), recs: crate::create::parse_records(&rs), extras: i % 2 == 1, wide: 0 };
+                let cs = crate::vcf::CallSet { cols: names.clone(), recs: crate::create::parse_records(&rs), extras: i % 2 == 1, wide: 0 };
                 if let Some(l) = crate::create::bytes_case(&cs, container, (i % 4) as u64, &c, &sl, "N", "0", "-", &rs) { out.push(l); }
             }
         }
@@ -146,12 +161,17 @@ pub fn gen_c08(ctx: &Ctx, rng: &mut Rng, out: &mut Vec<String>) {
     }
     gts.extend(tri);
     for g in ["./././.", ".|.|.|.", "0/0/0/0", "./0/./1", "././././."] { gts.push(g.to_string()); }
-    if ctx.tier_thorough { for g in ["0/255", "255/0", "0/2147483648", "1/62", "62|1"] { gts.push(g.to_string()); } }
+    for g in ["0/255", "255/0", "0/2147483648", "1/62", "62|1", "0/256", "256/0", "256/256", "257/0", "1|257", "257/257", "256/257", "0/512", "0/65536", "65537/0", "65537|65537", "4294967296/0", "4294967297/4294967297"] { gts.push(g.to_string()); }
+    // the edges of the GT grammar (VCF text only): a separator in front of the first allele (VCF 4.4), `+` in front of an index, indices at
+    // and beyond the machine word, empty alleles, lone separators
+    for g in ["|0/1", "/0/1", "|1|1", "|.", "/.", "|./.", "0/+1", "+1/+1", "+0|+0", "0/18446744073709551615", "18446744073709551616/0", "0/18446744073709551616", "99999999999999999999999/1",
+              "0//1", "0/", "/", "|", "0|", "||0", "++1/0", "0/-1", "-0/0", "0/1/", "|0", "/1", "|0/1/1"] { gts.push(g.to_string()); }
+    let vcf_only = |gt: &str| needs_wide(gt) || gt.contains('+') || gt.contains('-') || gt.starts_with('/') || gt.starts_with('|') || gt.ends_with('/') || gt.ends_with('|') || gt.contains("//") || gt.contains("||") || gt.len() > 20;
     for gt in &gts {
         for (sel, sl) in [("selected", "s:s0=A"), ("unselected", "s:s1=A"), ("both", "N")] {
             for container in ["vcf", "bcf"] {
                 // BCF cannot carry allele indices that need int16 without hitting the dependency's known defect (F18): keep <= 10 there (all listed are)
-                if container == "bcf" && (gt.contains("255") || gt.contains("2147483648") || gt.contains("62")) { continue; }
+                if container == "bcf" && vcf_only(gt) { continue; }
                 if !ctx.tier_thorough && sel == "both" && container == "bcf" { continue; }
                 // a second record after it shows that a ploidy error really stops the run and that nothing leaks
                 out.push(format!("c08.cli\t{container}\tpath\t4\t0\t0\ts0,s1\t{sl}\tN\t0\t-\tchr2~77~{gt},0/1;chr2~78~0/1,1/1"));
@@ -159,7 +179,7 @@ pub fn gen_c08(ctx: &Ctx, rng: &mut Rng, out: &mut Vec<String>) {
         }
         // byte level: the GT string inside real VCF text / BCF int8 vectors, decoded by the container model
         for container in ["vcf", "rawbcf", "vcfgz"] {
-            if container != "vcf" && (gt.contains("255") || gt.contains("2147483648") || gt.contains("62")) { continue; }
+            if container == "rawbcf" && vcf_only(gt) { continue; }
             if !ctx.tier_thorough && container == "vcfgz" && gt.len() > 3 { continue; }
             let rs = format!("chr2~77~{gt},0/1;chr2~78~0/1,1/1");
             let cs = crate::vcf::CallSet { cols: cols(2), recs: crate::create::parse_records(&rs), extras: false, wide: 0 };
@@ -223,6 +243,9 @@ pub fn gen_c09(ctx: &Ctx, rng: &mut Rng, out: &mut Vec<String>) {
         }
         // … and via a samples file that is a named pipe (what `-S <(…)` gives): same content, not a regular file
         if i % 4 == 0 { out.push(format!("c09.cli\tvcf\tpath\t4\t0\t0\t{}\t{}\tN\t0\t-\t{}", c.join(","), samples_arg(&base_order, &assign, unnamed, true).replacen("S:", "F:", 1), records_str(&recs))); }
+        // … and via a samples file with Windows line endings (CR LF after every line; CR LF between the lines only)
+        if i % 4 == 1 { out.push(format!("c09.cli\tvcf\tpath\t4\t0\t0\t{}\t{}\tN\t0\t-\t{}", c.join(","), samples_arg(&base_order, &assign, unnamed, true).replacen("S:", "R:", 1), records_str(&recs))); }
+        if i % 4 == 3 { out.push(format!("c09.cli\tvcf\tpath\t4\t0\t0\t{}\t{}\tN\t0\t-\t{}", c.join(","), samples_arg(&base_order, &assign, unnamed, true).replacen("S:", "Q:", 1), records_str(&recs))); }
         // (b) permuted list entries (labels may change first-appearance order: axes permute; the model follows)
         for _ in 0..3 {
             let mut o = base_order.clone(); g.rng.shuffle(&mut o);
@@ -302,6 +325,16 @@ pub fn gen_c11(ctx: &Ctx, rng: &mut Rng, out: &mut Vec<String>) {
             let mut with_nogt = kinds.clone(); with_nogt.insert(1, 8); with_nogt.insert(with_nogt.len() / 2 + 1, 8); with_nogt.push(8);
             out.push(format!("c11.cli\t{}\tstdin\t4\t2\t{}\t{cols4}\t{sl}\t{proj}\t0\t{}\t{}", if i % 8 == 0 { "vcf" } else { "vcfgz" }, (i / 4) % 2, if proj == "N" { "-" } else { "6" }, mk(&with_nogt, false)));
             out.push(format!("c11.cli\tbcf\tpath\t2\t2\t0\t{cols4}\t{sl}\t{proj}\t0\t{}\t{}", if proj == "N" { "-" } else { "6" }, mk(&k, false)));
+            // the same stream with one record spliced in whose INFO / ID / QUAL / FILTER column the VCF grammar refuses: the run stops
+            // there with an error, whatever the neighbouring records hold
+            if i % 8 == 4 {
+                let bad = ["!dupinfo", "!badinfo", "!badqual", "!dupid", "!dupfilter"][(i / 8) % 5];
+                for at in [0usize, 1, len] {
+                    let mut recs: Vec<(String, usize, Vec<String>)> = kinds.iter().enumerate().map(|(j, k)| ("1".to_string(), j + 1, kind_record(*k, false))).collect();
+                    recs.insert(at.min(recs.len()), ("1".to_string(), 500 + at, vec![bad.to_string()]));
+                    out.push(format!("c11.cli\tvcf\tstdin\t4\t0\t0\t{cols4}\t{sl}\t{proj}\t0\t{}\t{}", if proj == "N" { "-" } else { "6" }, records_str(&recs)));
+                }
+            }
         }
     }
 }
@@ -379,12 +412,14 @@ pub fn gen_c10(ctx: &Ctx, rng: &mut Rng, out: &mut Vec<String>) {
                         1 => { gts[sel] = "./.".into();                                                  // would be skipped …
                                // … in the repeating streams at the position of its predecessor (which may be skipped as well)
                                if rep && pos > 0 { (base[pos - 1].0.clone(), base[pos - 1].1, gts) } else { ("9".to_string(), 900 + pos, gts) } }
-                        2 => ("9".to_string(), 900 + pos, vec!["!badpos".to_string()]),
-                        _ => ("9".to_string(), 900 + pos, vec!["!trunc".to_string()]),
+                        2 => ("9".to_string(), 900 + pos, vec![["!badpos", "!dupinfo", "!badqual", "!badinfo"][(pos + i) % 4].to_string()]),
+                        _ => ("9".to_string(), 900 + pos, vec![["!trunc", "!dupid", "!dupfilter", "!badinfo"][(pos + i / 2) % 4].to_string()]),
                     };
                     recs.insert(pos, ins);
                     out.push(format!("c10.cli\tvcf\t{}\t4\t0\t0\t{c}\t{sl}\t{proj}\t{strict}\t{}\t{}", if fault % 2 == 0 { "path" } else { "stdin" }, if proj == "N" { "-" } else { "6" }, records_str(&recs)));
-                    if (pos + fault + i) % 3 == 0 {
+                    // byte level too (the container model knows repeated ID / FILTER / INFO-key entries, not the typing of INFO / QUAL values)
+                    let rs0 = records_str(&recs);
+                    if (pos + fault + i) % 3 == 0 && !rs0.contains("!badinfo") && !rs0.contains("!badqual") {
                         let rs = records_str(&recs);
                         let cs = crate::vcf::CallSet { cols: cols(ncols), recs: crate::create::parse_records(&rs), extras: false, wide: 0 };
                         let container = if fault >= 2 || i % 2 == 0 { "vcf" } else { "rawbcf" };
@@ -514,7 +549,9 @@ pub fn gen_c12(ctx: &Ctx, rng: &mut Rng, out: &mut Vec<String>) {
         bcf_safe(&mut recs);
         // a quarter of the call sets carry 126 / 197 / 266 further INFO definitions ahead of FORMAT/GT in the header: GT's index in the
         // BCF string dictionary then needs the largest 8-bit value, a 16-bit key below 256 and one above
-        let wide = if i % 4 == 3 { 126 + (i % 3) * 70 + (i % 3) / 2 } else { 0 };
+        // ... and every eighth call set declares INFO fields AFTER FORMAT/GT (header lines come in any order; the dictionary follows the
+        // order of appearance)
+        let wide = if i % 4 == 3 { 126 + (i % 3) * 70 + (i % 3) / 2 } else if i % 8 == 5 { 1001 + (i % 3) * 2 } else { 0 };
         let ex = if wide > 0 { format!("w{wide}") } else { (i % 2).to_string() };
         out.push(format!("c12.same\t{ex}\t{}\t{sl}\t{proj}\t0\t{}\t{}", cols(ncols).join(","), if proj == "N" { "-" } else { "6" }, records_str(&recs)));
         // byte level: the same call set in each container, the model decoding the very bytes handed to the binary
